@@ -154,6 +154,7 @@ VARIANTS = {
     'o2': dict(cc='gcc', flags=['-O2', '-DNDEBUG']),
     'o0': dict(cc='gcc', flags=['-O0', '-DNDEBUG']),
     'unsigned': dict(cc='gcc', flags=['-O1', '-g', '-funsigned-char', '-fsanitize=address,undefined', '-fno-sanitize-recover=all', '-DNDEBUG']),
+    'watch': dict(cc='gcc', flags=['-O1', '-g', '-no-pie', '-DNDEBUG']),
     'clang': dict(cc='clang', flags=['-O2', '-DNDEBUG']),
     'clang-unsigned': dict(cc='clang', flags=['-O2', '-funsigned-char', '-DNDEBUG']),
 }
